@@ -38,6 +38,21 @@ type Task struct {
 	Dir       string   `json:"dir,omitempty"`
 	NCmds     int      `json:"ncmds"`
 	Outputs   []string `json:"outputs,omitempty"`
+	// Def/Env: this model task is the instance of definition Def obtained with the variable ENV=Env;
+	// the definition carries `label: '<Def>-{{.ENV}}'`, Label holds the rendered label.
+	Def string `json:"def,omitempty"`
+	Env string `json:"env,omitempty"`
+	// echo suppression: task-level `silent: true`, every command `silent: true`
+	Silent    bool `json:"silent,omitempty"`
+	CmdSilent bool `json:"cmd_silent,omitempty"`
+}
+
+// defName is the name of the definition in the Taskfile (what goes on the command line).
+func (t Task) defName() string {
+	if t.Def != "" {
+		return t.Def
+	}
+	return t.Name
 }
 
 type FileInit struct {
@@ -56,6 +71,10 @@ type Op struct {
 	Tid  int    `json:"tid,omitempty"`
 	Out  string `json:"out,omitempty"` // ok fail promptno kill
 	K    int    `json:"k,omitempty"`
+	// Silent: the --silent flag. Chain (mode "chain"): one invocation of the parent task `all`, whose
+	// commands call the instances Tids one after the other with their ENV (indirect calls).
+	Silent bool  `json:"silent,omitempty"`
+	Tids   []int `json:"tids,omitempty"`
 }
 
 func (o Op) String() string {
@@ -72,6 +91,12 @@ func (o Op) String() string {
 		}
 		if o.Tid != 0 {
 			s += fmt.Sprintf("#%d", o.Tid)
+		}
+		if o.Silent {
+			s += "/silent"
+		}
+		if len(o.Tids) > 0 {
+			s += fmt.Sprint(o.Tids)
 		}
 		return s
 	case "rename":
@@ -124,19 +149,40 @@ func shq(s string) string { return "'" + strings.ReplaceAll(s, "'", `'\''`) + "'
 // RenderTaskfile prints the project as YAML.  Patterns, status files and
 // outputs are relative to the project root in the abstract project; with
 // dir: set they are rendered relative to that directory (one level deep).
-func RenderTaskfile(proj []Task) string {
+// Instances of one definition (same Def) are rendered once, with a templated
+// label; a parent task `all` calls every instance in order with its ENV.
+func RenderTaskfile(proj []Task, fileSilent bool) string {
 	var sb strings.Builder
-	sb.WriteString("version: '3'\n\ntasks:\n")
+	sb.WriteString("version: '3'\n\n")
+	if fileSilent {
+		sb.WriteString("silent: true\n\n")
+	}
+	sb.WriteString("tasks:\n")
+	done := map[string]bool{}
+	var calls []string
 	for tid, t := range proj {
+		if t.Def != "" {
+			calls = append(calls, fmt.Sprintf("      - task: %s\n        vars: {ENV: %s}\n", yq(t.Def), yq(t.Env)))
+		}
+		if done[t.defName()] {
+			continue
+		}
+		done[t.defName()] = true
 		up := ""
 		if t.Dir != "" {
 			up = "../"
 		}
-		fmt.Fprintf(&sb, "  %s:\n", yq(t.Name))
-		if t.Label != "" {
+		fmt.Fprintf(&sb, "  %s:\n", yq(t.defName()))
+		switch {
+		case t.Def != "":
+			fmt.Fprintf(&sb, "    label: %s\n", yq(t.Def+"-{{.ENV}}"))
+		case t.Label != "":
 			fmt.Fprintf(&sb, "    label: %s\n", yq(t.Label))
 		}
 		fmt.Fprintf(&sb, "    method: %s\n", t.Method)
+		if t.Silent {
+			sb.WriteString("    silent: true\n")
+		}
 		if t.Dir != "" {
 			fmt.Fprintf(&sb, "    dir: %s\n", yq(t.Dir))
 		}
@@ -165,14 +211,28 @@ func RenderTaskfile(proj []Task) string {
 			}
 		}
 		sb.WriteString("    cmds:\n")
+		who := fmt.Sprint(tid)
+		if t.Def != "" {
+			who = "{{.ENV}}"
+		}
 		for i := 0; i < t.NCmds; i++ {
-			c := fmt.Sprintf(`if [ "$VH_KILL" = "%d" ]; then kill -9 $$; fi; echo "%d %d" >> "$VH_ROOT/trace.log"; [ "$VH_FAIL" != "%d" ]`, i, tid, i, i)
+			c := fmt.Sprintf(`if [ "$VH_KILL" = "%d" ]; then kill -9 $$; fi; echo "%s %d" >> "$VH_ROOT/trace.log"; [ "$VH_FAIL" != "%d" ]`, i, who, i, i)
 			if i == t.NCmds-1 {
 				for _, o := range t.Outputs {
 					c += fmt.Sprintf(` && printf out > "$VH_ROOT/%s"`, o)
 				}
 			}
-			fmt.Fprintf(&sb, "      - %s\n", yq(c))
+			if t.CmdSilent {
+				fmt.Fprintf(&sb, "      - cmd: %s\n        silent: true\n", yq(c))
+			} else {
+				fmt.Fprintf(&sb, "      - %s\n", yq(c))
+			}
+		}
+	}
+	if len(calls) > 0 {
+		sb.WriteString("  all:\n    cmds:\n")
+		for _, c := range calls {
+			sb.WriteString(c)
 		}
 	}
 	return sb.String()
@@ -183,9 +243,10 @@ func yq(s string) string { return "'" + strings.ReplaceAll(s, "'", "''") + "'" }
 // ---- executing a history ----
 
 type runner struct {
-	root string
-	bin  string
-	proj []Task
+	root       string
+	bin        string
+	proj       []Task
+	fileSilent bool
 }
 
 var errInconclusive = errors.New("inconclusive")
@@ -198,7 +259,7 @@ func (r *runner) setup(proj []Task, init []FileInit, dirs []string) error {
 			return err
 		}
 	}
-	if err := os.WriteFile(r.abs("Taskfile.yml"), []byte(RenderTaskfile(proj)), 0o644); err != nil {
+	if err := os.WriteFile(r.abs("Taskfile.yml"), []byte(RenderTaskfile(proj, r.fileSilent)), 0o644); err != nil {
 		return err
 	}
 	for _, f := range init {
@@ -254,14 +315,69 @@ func (r *runner) fileOp(at int64, o Op) error {
 	return nil
 }
 
+func (r *runner) traceLines() []string {
+	b, err := os.ReadFile(r.abs("trace.log"))
+	if err != nil {
+		return nil
+	}
+	return strings.Split(strings.TrimSuffix(string(b), "\n"), "\n")
+}
+
+// run starts the real binary (always under a SIGKILL deadline) and reports exit code, kill, stderr.
+func (r *runner) run(args []string, o Op) (code int, killed bool, stderr string, err error) {
+	ctx, cancel := context.WithTimeout(context.Background(), 30*time.Second)
+	defer cancel()
+	cmd := exec.CommandContext(ctx, r.bin, args...)
+	cmd.Cancel = func() error { return cmd.Process.Kill() }
+	cmd.Dir = r.root
+	env := []string{}
+	for _, e := range os.Environ() {
+		if strings.HasPrefix(e, "TASK_") || strings.HasPrefix(e, "VH_") || strings.HasPrefix(e, "FORCE_COLOR") || strings.HasPrefix(e, "ENV=") {
+			continue
+		}
+		env = append(env, e)
+	}
+	env = append(env, "VH_ROOT="+r.root, "VH_FAIL=-", "VH_KILL=-")
+	switch o.Out {
+	case "fail":
+		env[len(env)-2] = fmt.Sprintf("VH_FAIL=%d", o.K)
+	case "kill":
+		env[len(env)-1] = fmt.Sprintf("VH_KILL=%d", o.K)
+	}
+	cmd.Env = env
+	var outb, errb strings.Builder
+	cmd.Stdout = &outb
+	cmd.Stderr = &errb
+	runErr := cmd.Run()
+	if ctx.Err() != nil {
+		return 0, false, "", errInconclusive
+	}
+	if runErr != nil {
+		var ee *exec.ExitError
+		if errors.As(runErr, &ee) {
+			code = ee.ExitCode()
+			if ws, ok := ee.Sys().(syscall.WaitStatus); ok && ws.Signaled() && ws.Signal() == syscall.SIGKILL {
+				killed = true
+			}
+		} else {
+			return 0, false, "", runErr
+		}
+	}
+	return code, killed, errb.String(), nil
+}
+
 func (r *runner) invoke(at int64, o Op) (res string, exit int, err error) {
 	if o.Tid < 0 || o.Tid >= len(r.proj) {
 		return "notask", 0, nil
 	}
-	name := r.proj[o.Tid].Name
+	t := r.proj[o.Tid]
+	name := t.defName()
 	args := []string{"--color=false"}
 	if o.Out != "promptno" {
 		args = append(args, "--yes")
+	}
+	if o.Silent {
+		args = append(args, "--silent")
 	}
 	switch o.Mode {
 	case "run":
@@ -281,47 +397,21 @@ func (r *runner) invoke(at int64, o Op) (res string, exit int, err error) {
 	default:
 		return "", 0, fmt.Errorf("unknown mode %q", o.Mode)
 	}
-	ctx, cancel := context.WithTimeout(context.Background(), 30*time.Second)
-	defer cancel()
-	cmd := exec.CommandContext(ctx, r.bin, args...)
-	cmd.Cancel = func() error { return cmd.Process.Kill() }
-	cmd.Dir = r.root
-	env := []string{}
-	for _, e := range os.Environ() {
-		if strings.HasPrefix(e, "TASK_") || strings.HasPrefix(e, "VH_") || strings.HasPrefix(e, "FORCE_COLOR") {
-			continue
-		}
-		env = append(env, e)
-	}
-	env = append(env, "VH_ROOT="+r.root, "VH_FAIL=-", "VH_KILL=-")
-	switch o.Out {
-	case "fail":
-		env[len(env)-2] = fmt.Sprintf("VH_FAIL=%d", o.K)
-	case "kill":
-		env[len(env)-1] = fmt.Sprintf("VH_KILL=%d", o.K)
-	}
-	cmd.Env = env
-	var outb, errb strings.Builder
-	cmd.Stdout = &outb
-	cmd.Stderr = &errb
-	runErr := cmd.Run()
-	if ctx.Err() != nil {
-		return "", 0, errInconclusive
-	}
-	code := 0
-	killed := false
-	if runErr != nil {
-		var ee *exec.ExitError
-		if errors.As(runErr, &ee) {
-			code = ee.ExitCode()
-			if ws, ok := ee.Sys().(syscall.WaitStatus); ok && ws.Signaled() && ws.Signal() == syscall.SIGKILL {
-				killed = true
-			}
-		} else {
-			return "", 0, runErr
+	if t.Def != "" {
+		switch o.Mode {
+		case "run", "force", "dry", "status", "summary":
+			args = append(args, "ENV="+t.Env)
 		}
 	}
-	upToDate := strings.Contains(errb.String(), "is up to date")
+	traceBefore := len(r.traceLines())
+	code, killed, stderr, err := r.run(args, o)
+	if err != nil {
+		return "", 0, err
+	}
+	traceGrew := len(r.traceLines()) > traceBefore
+	upToDate := strings.Contains(stderr, "is up to date")
+	// "Task ... is up to date" is not printed for a silent task / Taskfile / --silent
+	quiet := t.Silent || r.fileSilent || o.Silent
 	weird := func() (string, int, error) {
 		return "weird", code, nil
 	}
@@ -331,6 +421,8 @@ func (r *runner) invoke(at int64, o Op) (res string, exit int, err error) {
 		case killed:
 			return "killed", -1, nil
 		case code == 0 && upToDate:
+			return "skipped", 0, nil
+		case code == 0 && quiet && !traceGrew && t.NCmds > 0:
 			return "skipped", 0, nil
 		case code == 0:
 			return "ok", 0, nil
@@ -344,6 +436,8 @@ func (r *runner) invoke(at int64, o Op) (res string, exit int, err error) {
 		switch {
 		case code == 0 && upToDate:
 			return "skipped", 0, nil
+		case code == 0 && quiet:
+			return "dryq", 0, nil // nothing was said: up to date or not cannot be told
 		case code == 0:
 			return "dry", 0, nil
 		}
@@ -362,6 +456,97 @@ func (r *runner) invoke(at int64, o Op) (res string, exit int, err error) {
 		}
 		return weird()
 	}
+}
+
+func normName(s string) string {
+	b := []byte(s)
+	for i, c := range b {
+		if !((c >= 'A' && c <= 'z') || (c >= '0' && c <= '9')) {
+			b[i] = '-'
+		}
+	}
+	return string(b)
+}
+
+// invokeChain runs the parent task `all` once (one process) and splits what can be observed into
+// one step per called instance: results from the "is up to date" lines and from the trace lines each
+// instance appended; the snapshot between two instances is reconstructed from the one before and the
+// one after (the instances of this shape write no files besides their state file and the trace).
+func (r *runner) invokeChain(at int64, o Op, before Snapshot) ([]Step, error) {
+	traceBefore := r.traceLines()
+	code, killed, stderr, err := r.run([]string{"--color=false", "--yes", "all"}, o)
+	if err != nil {
+		return nil, err
+	}
+	if err := r.normalise(at); err != nil {
+		return nil, err
+	}
+	final, err := r.snapshot()
+	if err != nil {
+		return nil, err
+	}
+	if killed || code != 0 || fmt.Sprint(final.Files) != fmt.Sprint(before.Files) || fmt.Sprint(final.Dirs) != fmt.Sprint(before.Dirs) {
+		return nil, fmt.Errorf("chain: exit %d killed=%v or files changed", code, killed)
+	}
+	added := r.traceLines()[len(traceBefore):]
+	var steps []Step
+	cur := before
+	for k, tid := range o.Tids {
+		t := r.proj[tid]
+		n := 0
+		for _, l := range added {
+			if strings.HasPrefix(l, t.Env+" ") {
+				n++
+			}
+		}
+		st := Step{At: at + int64(k), Op: Op{Kind: "invoke", Mode: "run", Tid: tid, Out: "ok"}}
+		switch {
+		case n == t.NCmds && n > 0:
+			st.Res = "ok"
+		case n == 0 && strings.Contains(stderr, fmt.Sprintf("Task %q is up to date", t.Label)):
+			st.Res = "skipped"
+		default:
+			st.Res = "weird"
+		}
+		if k == len(o.Tids)-1 {
+			st.Snap = final
+		} else {
+			nx := Snapshot{Files: cur.Files, Dirs: cur.Dirs, Trace: cur.Trace + n, Tsx: cur.Tsx}
+			ck := normName(t.Label)
+			for _, e := range cur.Cks {
+				if e.K != ck {
+					nx.Cks = append(nx.Cks, e)
+				}
+			}
+			for _, e := range final.Cks {
+				if e.K == ck {
+					nx.Cks = append(nx.Cks, e)
+				}
+			}
+			sort.Slice(nx.Cks, func(i, j int) bool { return nx.Cks[i].K < nx.Cks[j].K })
+			tk := normName(t.defName())
+			for _, e := range cur.Tss {
+				if e.K != tk {
+					nx.Tss = append(nx.Tss, e)
+				}
+			}
+			for _, e := range final.Tss {
+				if e.K == tk {
+					nx.Tss = append(nx.Tss, e)
+				}
+			}
+			if nx.Cks == nil {
+				nx.Cks = []KV{}
+			}
+			if nx.Tss == nil {
+				nx.Tss = []KN{}
+			}
+			st.Snap = nx
+			cur = nx
+		}
+		steps = append(steps, st)
+	}
+	return steps, nil
 }
 
 // normalise gives every file the binary touched during the invocation at
@@ -450,7 +635,8 @@ func (r *runner) snapshot() (Snapshot, error) {
 }
 
 // Execute runs the history on a fresh copy of the project with the real binary.
-func Execute(bin string, proj []Task, init []FileInit, dirs []string, ops []Op, times []int64) (Snapshot, []Step, error) {
+// A "chain" operation yields one step per called instance.
+func Execute(bin string, proj []Task, fileSilent bool, init []FileInit, dirs []string, ops []Op, times []int64) (Snapshot, []Step, error) {
 	root, err := os.MkdirTemp("", "vh-fp")
 	if err != nil {
 		return Snapshot{}, nil, err
@@ -459,7 +645,7 @@ func Execute(bin string, proj []Task, init []FileInit, dirs []string, ops []Op, 
 	if rr, err := filepath.EvalSymlinks(root); err == nil {
 		root = rr
 	}
-	r := &runner{root: root, bin: bin, proj: proj}
+	r := &runner{root: root, bin: bin, proj: proj, fileSilent: fileSilent}
 	if err := r.setup(proj, init, dirs); err != nil {
 		return Snapshot{}, nil, err
 	}
@@ -468,7 +654,17 @@ func Execute(bin string, proj []Task, init []FileInit, dirs []string, ops []Op, 
 		return Snapshot{}, nil, err
 	}
 	var steps []Step
+	prev := s0
 	for i, o := range ops {
+		if o.Kind == "invoke" && o.Mode == "chain" {
+			sts, err := r.invokeChain(times[i], o, prev)
+			if err != nil {
+				return s0, steps, err
+			}
+			steps = append(steps, sts...)
+			prev = sts[len(sts)-1].Snap
+			continue
+		}
 		st := Step{At: times[i], Op: o}
 		if o.Kind == "invoke" {
 			st.Res, st.Exit, err = r.invoke(times[i], o)
@@ -489,6 +685,7 @@ func Execute(bin string, proj []Task, init []FileInit, dirs []string, ops []Op, 
 			return s0, steps, err
 		}
 		steps = append(steps, st)
+		prev = st.Snap
 	}
 	return s0, steps, nil
 }
